@@ -17,8 +17,61 @@ METHODS = ("new", "try_new", "try_new128", "checked_add", "checked_sub", "checke
 _FN = re.compile(r"util::rangeint::ri(8|16|32|64|128)::<MIN, MAX>::(%s)$" % "|".join(METHODS))
 
 
-def _delegates(t):
-    return any(isinstance(x, tuple) and x and x[0] == "call" and _FN.search(x[1]) for x in walk(t))
+_ANY = re.compile(r"util::rangeint::ri(8|16|32|64|128)::<MIN, MAX>::(\w+)$")
+
+
+def _delegates(t, prog=None, depth=2, _seen=None):
+    """the value is the result of a method of the checked set - or of another method of the ranged type that itself passes
+    this rule (a private helper such as new_const that `new` hands its converted argument to)"""
+    for x in walk(t):
+        if isinstance(x, tuple) and x and x[0] == "call":
+            if _FN.search(x[1]):
+                return True
+            if prog is not None and depth > 0 and _ANY.search(x[1]):
+                g = prog.fns.get("jiff::" + x[1])
+                if g is not None and x[1] not in (_seen or ()) and "unchecked" not in x[1] and _method_bad(g, prog, depth - 1, (_seen or ()) + (x[1],)) is None \
+                        and _builds_or_delegates(g, prog):
+                    return True
+    return False
+
+
+def _builds_or_delegates(g, prog):
+    T = Terms(g)
+    r = T.returns()
+    return any(isinstance(a, tuple) and a and a[0] in ("agg", "call") for a in alts(r))
+
+
+def _method_bad(g, prog, depth=2, seen=()):
+    """None if every Some/Ok the function builds is under contains() or delegates; else a description"""
+    T = Terms(g)
+    cfg = mir.CFG(g)
+    bad = None
+    built = 0
+    for bi, b in enumerate(g.blocks):
+        for si, s in enumerate(b["st"]):
+            rv = s.get("rv") or {}
+            if s["s"] == "=" and rv.get("k") == "agg" and rv.get("adt") in ("core::option::Option", "core::result::Result") \
+                    and rv.get("variant") in ("Some", "Ok"):
+                built += 1
+                payload = T.operand(rv["ops"][0], pos=(bi, si)) if rv.get("ops") else None
+                if payload is not None and _delegates(payload, prog, depth, seen):
+                    continue
+                ok = False
+                for (cond, truth, _sb) in guards(g, cfg, T, bi):
+                    c2, t2 = strip_not(cond, truth)
+                    if t2 is True and any(isinstance(y, tuple) and y and y[0] == "call" and y[1].endswith("::contains") for y in walk(c2)):
+                        ok = True
+                if not ok:
+                    bad = "%s:%s builds %s of %s without a dominating Self::contains(..) test" % (
+                        g.file, s.get("ln"), rv.get("variant"), show(payload, maxd=3)[:80])
+    r = T.returns()
+    passthrough = [a for a in alts(r) if isinstance(a, tuple) and a and a[0] == "call"]
+    for a in passthrough:
+        if not _delegates(a, prog, depth, seen):
+            bad = bad or "returns %s, which is not a method of the checked set" % show(a, maxd=3)[:100]
+    if built == 0 and not passthrough:
+        bad = bad or "anchor missing: the method neither builds Some/Ok nor delegates"
+    return bad
 
 
 def ranged_checked(ctx, rep, rule="RANGED-CHECKED", configs=("Q", "T1"), floor=40):
@@ -37,38 +90,11 @@ def ranged_checked(ctx, rep, rule="RANGED-CHECKED", configs=("Q", "T1"), floor=4
                 continue
             n += 1
             key = "%s ri%s::%s" % ("debug" if c == "Q" else "release" if c == "T1" else c, m.group(1), m.group(2))
-            T = Terms(g)
-            cfg = mir.CFG(g)
-            bad = None
-            built = 0
-            for bi, b in enumerate(g.blocks):
-                for si, s in enumerate(b["st"]):
-                    rv = s.get("rv") or {}
-                    if s["s"] == "=" and rv.get("k") == "agg" and rv.get("adt") in ("core::option::Option", "core::result::Result") \
-                            and rv.get("variant") in ("Some", "Ok"):
-                        built += 1
-                        payload = T.operand(rv["ops"][0], pos=(bi, si)) if rv.get("ops") else None
-                        if payload is not None and _delegates(payload):
-                            continue
-                        ok = False
-                        for (cond, truth, _sb) in guards(g, cfg, T, bi):
-                            c2, t2 = strip_not(cond, truth)
-                            if t2 is True and any(isinstance(y, tuple) and y and y[0] == "call" and y[1].endswith("::contains") for y in walk(c2)):
-                                ok = True
-                        if not ok:
-                            bad = "%s:%s builds %s of %s without a dominating Self::contains(..) test" % (
-                                g.file, s.get("ln"), rv.get("variant"), show(payload, maxd=3)[:80])
-            r = T.returns()
-            passthrough = [a for a in alts(r) if isinstance(a, tuple) and a and a[0] == "call"]
-            for a in passthrough:
-                if not _delegates(a):
-                    bad = bad or "returns %s, which is not a method of the checked set" % show(a, maxd=3)[:100]
-            if built == 0 and not passthrough:
-                bad = bad or "anchor missing: the method neither builds Some/Ok nor delegates"
+            bad = _method_bad(g, prog)
             if bad:
                 rep.violation(rule, key, bad, g.loc())
             else:
-                rep.ok(rule, key, how="%d construction(s) under contains(), %d delegation(s)" % (built, len(passthrough)))
+                rep.ok(rule, key, how="every Some/Ok is built under contains() or delegates to a method that is")
         total += n
         rep.floor("%s methods in %s" % (rule, c), n, floor)
     return total
